@@ -1,15 +1,17 @@
 """C05 — pack, unpack and token strings are mutually inverse and compositional."""
 from vlib import *
 from props.common import *
-import struct, sys
+import struct, sys, math, copy
 
 ID = 'C05'
 COQ_PROPS = ['Props/C05.v']
 COQ_IMPORTS = ['Prims', 'CaseLib', 'BitsCore', 'Golomb', 'IntCodec', 'Mutators', 'Search', 'Stream', 'Pack']
-RULE = ('formats drawn from the grammar fmt ::= token | fmt, fmt | n*(fmt) | n*token | (fmt) with every dtype, the length spellings name:n / namen / keyword, struct codes with the four prefixes and counts, '
-        'nested brackets, whitespace, pads and at most one length-less token, with conforming values: pack length and bits vs independently computed per-token encodings, unpack, embedded =value strings, '
-        'all splits of a format in two, n*(f), wrong arity; the parser functions compared with a reference flattening; a malformed stream must raise ValueError and terminate. '
-        'non-trivial = format with a factor, bracket or struct code; distinct by (format, values)')
+RULE = ('formats drawn from the grammar fmt ::= token | fmt, fmt | n*(fmt) | n*token | (fmt) with every dtype, the length spellings name:n / namen / alias / bare number / keyword, struct codes with the four prefixes and counts, '
+        'nested brackets, whitespace, pads and at most one length-less token, with conforming values given positionally (as objects or as text), embedded as =text or through =keyword: pack length and bits vs '
+        'independently computed per-token encodings, unpack / readlist / peeklist on the four classes, token strings (flat and bracketed) on the four classes, '
+        'splits of a format in two, n*(f), wrong arity; formats that contain the same sub-format text several times (same body under different factors, digit-suffix factors, nested, bare, '
+        'token-level prefixes / suffixes); value spellings (sign, zero padding, whitespace, prefixes, letter case, float notations); the parser functions compared with a reference flattening; '
+        'a malformed stream must raise ValueError and terminate. non-trivial = format with a factor, bracket, struct code or value in the text; distinct by (format, values)')
 ASSUMPTIONS = ['the string front end (tokenparser/preprocess_tokens/expand_brackets/structparser) is tied by the grammar oracle and correspondence of parser outputs, not proved',
                'msb0 (the lsb0 token order is C12)']
 COQ_PRELUDE = '''
@@ -20,8 +22,13 @@ Definition value_eqb (a b : value) : bool :=
 CK = {'bits': 'KBits', 'uint': 'KUint', 'int': 'KInt', 'bin': 'KBin', 'hex': 'KHex', 'bool': 'KBool', 'pad': 'KPad', 'bytes': 'KBytes'}
 GC = {'ue': 'UE', 'se': 'SE', 'uie': 'UIE', 'sie': 'SIE'}
 STRUCT = {'b': ('int', 1), 'B': ('uint', 1), 'h': ('int', 2), 'H': ('uint', 2), 'l': ('int', 4), 'L': ('uint', 4), 'i': ('int', 4), 'I': ('uint', 4), 'q': ('int', 8), 'Q': ('uint', 8)}
+INTK = ('uint', 'int', 'uintle', 'intle', 'uintbe', 'intbe', 'uintne', 'intne')
+FLOATK = ('float', 'floatbe', 'floatle', 'floatne', 'bfloat')
+ALIAS = {'uint': 'u', 'int': 'i', 'float': 'f', 'hex': 'h', 'bin': 'b', 'oct': 'o'}
+KW_POOL = ('e', 'ex', 'ie', 'in', 'it', 'its', 'pos', 'ool', 'ytes', 'int', 'x', 'n', 'ad', 'loat', 'ct', 'length', 'dtypes', 'offset', 'keys', 'token_list', 'values', 'kwargs', 'cls', 's')
 
 # ---------- the format AST and its printer ----------
+# nodes: fixed / var / stretch / struct (leaves), seq, rep, paren, and lit = an already printed sub-format (its exact text can be used several times in one format)
 def gen_token(rng, allow_stretch):
     r = rng.random()
     if r < 0.12:
@@ -30,15 +37,20 @@ def gen_token(rng, allow_stretch):
         return {'t': 'struct', 'pre': pre, 'codes': codes}
     if r < 0.2: return {'t': 'var', 'name': rng.choice(list(GC))}
     if r < 0.26 and allow_stretch: return {'t': 'stretch', 'name': rng.choice(['bits', 'bin', 'hex', 'bytes'])}
-    name = rng.choice(['uint', 'int', 'hex', 'bin', 'oct', 'bits', 'bytes', 'bool', 'pad', 'uintle', 'intbe', 'float'])
+    name = rng.choice(['uint', 'int', 'hex', 'bin', 'oct', 'bits', 'bytes', 'bool', 'pad', 'uintle', 'intbe', 'float', 'uint', 'int',
+                       'uintbe', 'intle', 'uintne', 'intne', 'bfloat', 'floatle', 'floatbe'])
     if name == 'bool': return {'t': 'fixed', 'name': 'bool', 'n': 1, 'spell': rng.choice(['bare', 'colon'])}
-    n = rng.choice([1, 2, 3, 4, 5, 8, 12, 16, 24])
-    if name == 'hex': n = 4 * rng.choice([1, 2, 3])
-    if name == 'oct': n = 3 * rng.choice([1, 2, 3])
-    if name in ('uintle', 'intbe'): n = 8 * rng.choice([1, 2, 3])
-    if name == 'bytes': n = rng.choice([1, 2, 3])
-    if name == 'float': n = rng.choice([16, 32, 64])
-    return {'t': 'fixed', 'name': name, 'n': n, 'spell': rng.choice(['colon', 'colon', 'joined', 'kw'])}
+    n = rng.choice([1, 2, 3, 4, 5, 8, 12, 16, 24, 1, 2, 3, 4, 5, 8, 12, 16, 24, 7, 9, 15, 17, 31, 32, 33, 63, 64, 65])
+    if name == 'hex': n = 4 * rng.choice([1, 2, 3, 1, 2, 3, 4, 8, 16])
+    if name == 'oct': n = 3 * rng.choice([1, 2, 3, 1, 2, 3, 5, 11])
+    if name[-2:] in ('le', 'be', 'ne') and name not in FLOATK: n = 8 * rng.choice([1, 2, 3, 1, 2, 3, 4, 8])
+    if name == 'bytes': n = rng.choice([1, 2, 3, 1, 2, 3, 4, 8])
+    if name in ('float', 'floatle', 'floatbe'): n = rng.choice([16, 32, 64])
+    if name == 'bfloat': n = 16
+    f = {'t': 'fixed', 'name': name, 'n': n, 'spell': rng.choice(['colon', 'colon', 'joined', 'kw'])}
+    if name in ALIAS and rng.random() < 0.15: f['alias'] = True            # 'u8', 'i:12', 'h8' ...
+    if name == 'bits' and rng.random() < 0.15: f['spell'] = 'number'          # a bare number is a bits token
+    return f
 
 def gen_fmt(rng, depth, allow_stretch=True):
     r = rng.random()
@@ -48,31 +60,92 @@ def gen_fmt(rng, depth, allow_stretch=True):
     if r < 0.92: return {'t': 'rep', 'n': rng.choice([1, 2, 3]), 'body': gen_token(rng, False), 'bracket': False}
     return {'t': 'paren', 'body': gen_fmt(rng, depth - 1, False)}
 
-def show(f, rng, kw):
+def new_ctx(vp=0.0, tp=0.0):
+    """vp: probability that a token carries its value in the format text (=text or =keyword); tp: probability that a positional value is handed over as text"""
+    return {'kw': {}, 'lk': [], 'vp': vp, 'tp': tp}
+
+def new_key(ctx, n, stem):
+    # keyword names include ones that are tails of token names ('ue' = 'u' + 'e', 'hex' = 'h' + 'ex', ...): a token must never be re-read as name + keyword
+    # ... and names of parameters of the library's private helpers ('pos', 'dtypes', 'length', 'offset', 'token_list', 'keys': D61); the public parameter names 'fmt' and 'self' cannot be keywords in Python itself
+    kw = ctx['kw']
+    pool = [x for x in KW_POOL if x not in kw]
+    return pool[(len(kw) * 5 + n) % len(pool)] if pool and (n + len(kw)) % 2 == 0 else f"{stem}{len(kw)}"
+
+def jv(v): return list(v) if isinstance(v, bytes) else v
+
+def leaf(rng, ctx, nm, n, tok):
+    """one elementary token whose text (without a value) is tok -> (text without value, text as packed, leaf record)"""
+    L = {'nm': nm, 'n': n, 'mode': 'pos'}
+    if nm == 'pad': return tok, tok, L
+    sp = lambda: rng.choice(['', '', '', ' '])
+    if rng.random() < ctx['vp']:
+        v, b, bk = rand_value(rng, nm, n)
+        L.update(v=jv(v), bits=b, back=bk)
+        t = spell(rng, nm, v, True) if rng.random() < 0.7 else None
+        if t is not None:
+            L.update(mode='emb', txt=t)
+            return tok, tok + sp() + '=' + sp() + t, L
+        k = new_key(ctx, n or 0, 'v')
+        t = spell(rng, nm, v, False) if rng.random() < 0.5 else None       # a keyword value may itself be text; otherwise the object (falsy ones included)
+        ctx['kw'][k] = jv(v) if t is None else t
+        L.update(mode='kwv', txt=t, key=k)
+        return tok, tok + sp() + '=' + sp() + k, L
+    if rng.random() < ctx['tp']: L['mode'] = 'postext'
+    return tok, tok, L
+
+def render(f, rng, ctx):
+    """-> (format text without values, format text as packed, flat list of leaf records)"""
     sp = lambda: rng.choice(['', '', ' ', '  '])
     t = f['t']
+    if t == 'lit': return f['plain'], f['full'], copy.deepcopy(f['flat'])
     if t == 'fixed':
-        if f['name'] == 'bool' and f['spell'] == 'bare': return 'bool'
-        if f['spell'] == 'joined': return f"{f['name']}{f['n']}"
-        if f['spell'] == 'kw':
-            # keyword names include ones that are tails of token names ('ue' = 'u' + 'e', 'hex' = 'h' + 'ex', ...): a token must never be re-read as name + keyword
-            # ... and names of parameters of the library's private helpers ('pos', 'dtypes', 'length', 'offset', 'token_list', 'keys': D61); the public parameter names 'fmt' and 'self' cannot be keywords in Python itself
-            pool = [x for x in ('e', 'ex', 'ie', 'in', 'it', 'its', 'pos', 'ool', 'ytes', 'int', 'x', 'n', 'ad', 'loat', 'ct', 'length', 'dtypes', 'offset', 'keys', 'token_list', 'values', 'kwargs', 'cls', 's') if x not in kw]
-            k = pool[(len(kw) * 5 + f['n']) % len(pool)] if pool and (f['n'] + len(kw)) % 2 == 0 else f"len{len(kw)}"
-            kw[k] = f['n']; return f"{f['name']}:{k}"
-        return f"{f['name']}{sp()}:{sp()}{f['n']}"
-    if t == 'var': return f['name']
-    if t == 'stretch': return f['name']
-    if t == 'struct': return f['pre'] + f['codes']
-    if t == 'seq': return (sp() + ',' + sp()).join(show(x, rng, kw) for x in f['items'])
+        nm = ALIAS[f['name']] if f.get('alias') else f['name']
+        if f['name'] == 'bool' and f['spell'] == 'bare': tok = 'bool'
+        elif f['spell'] == 'number': tok = str(f['n'])
+        elif f['spell'] == 'joined': tok = f"{nm}{f['n']}"
+        elif f['spell'] == 'kw':
+            same = [x for x in ctx['lk'] if ctx['kw'][x] == f['n']]
+            if same and rng.random() < 0.5: k = rng.choice(same)          # one keyword gives the length of several tokens
+            else:
+                k = new_key(ctx, f['n'], 'len')
+                ctx['kw'][k] = f['n']; ctx['lk'].append(k)
+            tok = f"{nm}{sp()}:{sp()}{k}"
+        else: tok = f"{nm}{sp()}:{sp()}{f['n']}"
+        p, fu, L = leaf(rng, ctx, f['name'], f['n'], tok)
+        return p, fu, [L]
+    if t in ('var', 'stretch'):
+        p, fu, L = leaf(rng, ctx, f['name'], None, f['name'])
+        return p, fu, [L]
+    if t == 'struct':
+        s = f['pre'] + f['codes']
+        return s, s, [{'nm': nm, 'n': n, 'mode': 'postext' if rng.random() < ctx['tp'] else 'pos'} for nm, n in flatten(f)]
+    if t == 'seq':
+        parts = [render(x, rng, ctx) for x in f['items']]
+        seps = f.get('seps') or [sp() + ',' + sp() for _ in parts[1:]]
+        join = lambda k: ''.join(x[k] + (seps[i] if i < len(seps) else '') for i, x in enumerate(parts))
+        return join(0), join(1), [L for x in parts for L in x[2]]
     if t == 'rep':
-        inner = show(f['body'], rng, kw)
-        return f"{f['n']}{sp()}*{sp()}({inner})" if f['bracket'] else f"{f['n']}*{inner}"
-    if t == 'paren': return '(' + show(f['body'], rng, kw) + ')'
+        p, fu, fl = render(f['body'], rng, ctx)
+        a, b = f.get('ws') or (sp(), sp())
+        head = f"{f['n']}{a}*{b}(" if f['bracket'] else f"{f['n']}*"
+        tail = ')' if f['bracket'] else ''
+        return head + p + tail, head + fu + tail, [copy.deepcopy(L) for _ in range(f['n']) for L in fl]
+    if t == 'paren':
+        p, fu, fl = render(f['body'], rng, ctx)
+        return '(' + p + ')', '(' + fu + ')', fl
+
+def show(f, rng, kw):
+    ctx = new_ctx(); ctx['kw'] = kw
+    return render(f, rng, ctx)[0]
+
+def freeze(f, rng, ctx):
+    p, fu, fl = render(f, rng, ctx)
+    return {'t': 'lit', 'plain': p, 'full': fu, 'flat': fl}
 
 def flatten(f):
     """list of elementary tokens (name, length-in-units or None)"""
     t = f['t']
+    if t == 'lit': return [(L['nm'], L['n']) for L in f['flat']]
     if t == 'fixed': return [(f['name'], f['n'])]
     if t == 'var': return [(f['name'], None)]
     if t == 'stretch': return [(f['name'], None)]
@@ -95,6 +168,21 @@ def has_zero_bracket(f):
     if t == 'paren': return has_zero_bracket(f['body'])
     return False
 
+def fbits(b): return ''.join(format(x, '08b') for x in b)
+
+def float_bytes(name, n, v):
+    """the IEEE encoding of v for a float token, by struct (bfloat: the upper half of the single-precision encoding, exact for the values used)"""
+    if name == 'bfloat': return struct.pack('>f', v)[:2]
+    code = {16: 'e', 32: 'f', 64: 'd'}[n]
+    end = '<' if name == 'floatle' or (name == 'floatne' and sys.byteorder == 'little') else '>'
+    return struct.pack(end + code, v)
+
+def float_back(name, n, b):
+    if name == 'bfloat': return struct.unpack('>f', b + b'\0\0')[0]
+    code = {16: 'e', 32: 'f', 64: 'd'}[n]
+    end = '<' if name == 'floatle' or (name == 'floatne' and sys.byteorder == 'little') else '>'
+    return struct.unpack(end + code, b)[0]
+
 def rand_value(rng, name, n):
     """(python value to pack, expected bits, value unpack returns (canonical))"""
     if name in ('uint', 'uintle', 'uintbe', 'uintne'):
@@ -115,13 +203,14 @@ def rand_value(rng, name, n):
         return (('0b' + s if s else '') if name == 'bits' else s), s, (['bits', s] if name == 'bits' else s)
     if name == 'bytes':
         k = n if n is not None else rng.randrange(0, 3); b = bytes(rng.randrange(256) for _ in range(k))
-        return b, ''.join(format(x, '08b') for x in b), ['b', list(b)]
+        return list(b), fbits(b), ['b', list(b)]                      # bytes travel as a list of ints (JSON); pyval() restores them
     if name == 'bool':
         v = rng.random() < 0.5; return v, '1' if v else '0', v
     if name == 'pad': return None, '0' * n, None
-    if name == 'float':
-        v = rng.choice([0.0, -0.0, 0.0, -0.0, 1.5, -2.25, 1e-3, 100.0]); code = {16: 'e', 32: 'f', 64: 'd'}[n]
-        b = struct.pack('>' + code, v); return v, ''.join(format(x, '08b') for x in b), ['f', struct.unpack('>' + code, b)[0].hex()]
+    if name in FLOATK:
+        v = rng.choice([0.0, -0.0, 0.0, -0.0, 1.5, -2.25, 1e-3, 100.0, 0.5, -0.0625, 3.0, float('inf'), float('-inf'), float('nan')])
+        if name == 'bfloat' and v == 1e-3: v = 0.25
+        b = float_bytes(name, n, v); return v, fbits(b), ['f', float_back(name, n, b).hex()]
     if name in GC:
         from props.c10 import ref_enc
         v = rng.randrange(0, 40) if name in ('ue', 'uie') else rng.randrange(-20, 21)
@@ -131,16 +220,176 @@ def rand_value(rng, name, n):
             if name in ('se', 'sie') and rng.random() < 0.5: v = -v
         return v, ref_enc(name, v), v
 
+# ---------- values written as text ----------
+def spell(rng, nm, v, in_format):
+    """A text spelling of the conforming value v for a token of kind nm (None when there is none): decimal integers with an optional sign and zero padding, the
+    notations of Python's float(), digits of the hex / oct / bin tokens in either letter case with or without the 0x / 0o / 0b prefix, prefixed literals for bits,
+    '1' / '0' / 'True' / 'False' for bool.  Surrounding whitespace: anywhere inside a format string (it is stripped from formats); around numbers when the text is
+    handed over as a value (int() and float() accept it).  What the text stands for is decided here by int() / float() of plain Python, not by the library."""
+    ws = lambda s: rng.choice(['', '', '', ' ', '  ', '\t']) + s + rng.choice(['', '', '', ' ', '  '])
+    if nm in INTK or nm in GC:
+        signed = nm.startswith('int') or nm in ('se', 'sie')
+        sign = '-' if v < 0 else rng.choice(['', '', '+'])
+        if v == 0 and signed and rng.random() < 0.15: sign = '-'
+        s = sign + rng.choice(['', '', '0', '00', '000', '0000000']) + str(abs(v))
+        assert int(s) == v
+        return ws(s)
+    if nm in FLOATK:
+        if v != v: s = rng.choice(['nan', 'nan', 'NaN'])
+        elif v in (float('inf'), float('-inf')): s = ('-' if v < 0 else rng.choice(['', '+'])) + rng.choice(['inf', 'inf', 'Infinity', 'INF'])
+        else:
+            a = abs(v); neg = math.copysign(1.0, v) < 0
+            forms = [repr(a), repr(a), '%.12f' % a, '%e' % a, '%E' % a, '0' + repr(a), '000' + repr(a), repr(a) + '0']
+            if a == int(a) and 'e' not in repr(a): forms += [str(int(a)), str(int(a)) + '.', str(int(a)) + 'e0']
+            if 0 < a < 1 and repr(a).startswith('0.'): forms += [repr(a)[1:]]
+            s = ('-' if neg else rng.choice(['', '', '+'])) + rng.choice(forms)
+            if float(s) != v or math.copysign(1.0, float(s)) != math.copysign(1.0, v): s = repr(v)
+        return ws(s)
+    if nm == 'hex':
+        if not v: return None
+        s = rng.choice([v, v, v.upper(), ''.join(rng.choice([c, c.upper()]) for c in v)])
+        assert int(s, 16) == int(v, 16) and len(s) == len(v)
+        s = rng.choice(['', '', '0x', '0X']) + s
+    elif nm == 'oct':
+        if not v: return None
+        s = rng.choice(['', '', '0o', '0O']) + v
+    elif nm == 'bin':
+        if not v: return None
+        s = rng.choice(['', '', '0b', '0B']) + v
+    elif nm == 'bits':
+        b = v[2:]
+        if not b: return None
+        forms = ['0b' + b, '0b' + b, '0B' + b]
+        if len(b) % 4 == 0: h = format(int(b, 2), f'0{len(b) // 4}x'); forms += ['0x' + h, '0x' + h.upper(), '0X' + h]
+        if len(b) % 3 == 0: forms += ['0o' + format(int(b, 2), f'0{len(b) // 3}o')]
+        s = rng.choice(forms)
+    elif nm == 'bool':
+        return rng.choice(['1', 'True']) if v else rng.choice(['0', 'False'])
+    else:
+        return None                 # bytes have no text form
+    return ws(s) if in_format else s
+
+def mk_case(rng, f, ctx=None, **extra):
+    """render the format, draw a value for every elementary token that still needs one, and record per token the reference encoding"""
+    ctx = ctx or new_ctx()
+    items = f['items'] if f['t'] == 'seq' else [f]
+    sp = lambda: rng.choice(['', '', ' ', '  '])
+    parts = [render(x, rng, ctx) for x in items]
+    seps = f.get('seps') or [sp() + ',' + sp() for _ in parts[1:]]
+    join = lambda k, lo=0, hi=None: ''.join(parts[i][k] + (seps[i] if i < (len(parts) if hi is None else hi) - 1 else '') for i in range(lo, len(parts) if hi is None else hi))
+    plain, full = join(0), join(1)
+    flat = [L for x in parts for L in x[2]]
+    toks, vals, bits, back, args, etext = [], [], [], [], [], []
+    npos = []                       # positional values consumed by each top-level item
+    for x in parts:
+        k = 0
+        for L in x[2]:
+            nm, n = L['nm'], L['n']
+            toks.append([nm, n])
+            if L['mode'] in ('emb', 'kwv'):
+                v, b, bk, t = L['v'], L['bits'], L['back'], L['txt']
+                if L['mode'] == 'emb' and ''.join(t.split()) in ctx['kw']: return None           # the text of a value must not happen to be a keyword of this call
+            else:
+                v, b, bk = rand_value(rng, nm, n)
+                t = None
+                if nm != 'pad':
+                    k += 1
+                    if L['mode'] == 'postext': t = spell(rng, nm, v, False)
+                    args.append(jv(v) if t is None else t)
+            if t is None and nm != 'pad':       # a spelling for the flat token string
+                t = spell(rng, nm, v, True) if rng.random() < 0.5 else (None if isinstance(v, (bytes, list)) or v == '' or v == '0b' else str(v))
+            vals.append(jv(v)); bits.append(b); back.append(bk); etext.append(t)
+        npos.append(k)
+    c = {'op': 'pack', 'fmt': full, 'plain': plain, 'kw': ctx['kw'], 'lkw': {k: ctx['kw'][k] for k in ctx['lk']}, 'toks': toks, 'vals': vals, 'bits': bits, 'back': back,
+         'args': args, 'etext': etext, 'zero_bracket': has_zero_bracket(f), 'arity': rng.choice([0, 0, 0, -1, 1]),
+         'ucls': rng.choice(CLASSES), 'umeth': rng.choice(['unpack', 'unpack', 'readlist', 'peeklist'])}
+    if len(parts) >= 2:
+        # the format is 'f1, f2': the bits are those of f1 followed by those of f2
+        k = rng.randrange(1, len(parts))
+        c['split'] = {'f1': join(1, 0, k), 'f2': join(1, k, None), 'a1': sum(npos[:k]), 't1': sum(len(x[2]) for x in parts[:k])}
+    c.update(extra)
+    return c
+
+# ---------- formats that contain the same text more than once ----------
+def gen_repeat_fmt(rng, ctx, big):
+    """One format in which a sub-format B occurs several times, literally the same text: in brackets under different factors (one factor's digits a suffix or a
+    prefix of another's: 2 and 12, 1 and 10), without a factor, nested inside another repeated bracket, bare, with the factor on its first token only, and next to
+    near-copies (B without its first / last token, B with a token whose name is a tail of the original: uint -> int).  Expansion has to be by position."""
+    tight = rng.random() < 0.65
+    def tok():
+        r = rng.random()
+        f = gen_token(rng, False) if r < 0.85 else gen_fmt(rng, 1, False)
+        return freeze(f, rng, ctx)
+    k = rng.choice([1, 2, 2, 2, 3])
+    T = [tok() for _ in range(k)]
+    seps = [(',' if tight else rng.choice([',', ', ', ' , '])) for _ in T[1:]]
+    def seq(items, s=None):
+        return items[0] if len(items) == 1 else {'t': 'seq', 'items': list(items), 'seps': list(s if s is not None else seps[:len(items) - 1])}
+    B = seq(T)
+    def rep(n, body, bracket=True):
+        if n is None: return {'t': 'paren', 'body': body}
+        r = {'t': 'rep', 'n': n, 'body': body, 'bracket': bracket}
+        if tight or rng.random() < 0.5: r['ws'] = ['', '']
+        return r
+    # factors related by their digits
+    a = rng.choice([None, 0, 1, 1, 2, 2, 3])
+    fam = [a]
+    cap = 113 if big else 23
+    for _ in range(3):
+        r = rng.random()
+        if a is None: n = rng.choice([None, 1, 2, 3, 10, 12])
+        elif r < 0.4: n = int(rng.choice('12') + str(a))                 # 2 -> 12, 22
+        elif r < 0.55: n = int(str(a) + rng.choice('012')) if a else 10  # 2 -> 20, 21
+        elif r < 0.65: n = int('1' + rng.choice('01') + str(a))          # 2 -> 102, 112
+        elif r < 0.75: n = a
+        elif r < 0.85: n = None
+        else: n = rng.choice([0, 1, 2, 3, 4])
+        if n is not None and n > cap: n = int('1' + str(a))
+        fam.append(n)
+    rng.shuffle(fam)
+    def near():
+        r = rng.random()
+        if r < 0.3 and k > 1: return seq(T[1:], seps[1:])                # B without its first token
+        if r < 0.5 and k > 1: return seq(T[:-1], seps[:-1])              # ... without its last
+        if r < 0.7:                                                      # a further token in front / behind
+            x = tok(); return seq([x] + T, [seps[0] if seps else ','] + seps) if rng.random() < 0.5 else seq(T + [x], seps + [seps[0] if seps else ','])
+        # the same text with the first letter of a token name dropped (uint:8 -> int:8): the original ends with the new text
+        for i, t in enumerate(T):
+            if len(t['flat']) == 1 and t['flat'][0]['mode'] in ('pos', 'postext') and t['plain'].startswith('uint') and t['flat'][0]['nm'].startswith('uint'):
+                L = dict(t['flat'][0]); L['nm'] = L['nm'][1:]
+                t2 = {'t': 'lit', 'plain': t['plain'][1:], 'full': t['full'][1:], 'flat': [L]}
+                return seq(T[:i] + [t2] + T[i + 1:])
+        return B
+    occ = []
+    for n in fam:
+        r = rng.random()
+        body = B if r < 0.8 else near()
+        if r < 0.55: o = rep(n, body)
+        elif r < 0.7:                                                    # nested inside another repeated bracket, with or without a neighbour
+            inner = rep(n if n is None or n <= 12 else 12, body)
+            other = rng.choice([None, tok(), tok(), rep(rng.choice([None, 2]), body)])
+            its = [inner] if other is None else ([other, inner] if rng.random() < 0.5 else [inner, other])
+            o = rep(rng.choice([None, 1, 2, 3]), seq(its, [rng.choice(seps) if seps else ','] * (len(its) - 1)))
+        elif r < 0.8: o = body                                           # bare
+        elif r < 0.9 and n is not None:                                  # 'n*t1, t2': the factor belongs to the first token only
+            first = T[0]
+            head = rep(n, first, bracket=False) if len(first['flat']) == 1 and not any(ch in first['plain'] for ch in '(*,') and first['plain'][0] not in '<>=@' else rep(n, first)
+            o = seq([head] + T[1:])
+        else: o = rep(None, rep(n, body))
+        occ.append(o)
+    if rng.random() < 0.4: occ.insert(rng.randrange(len(occ) + 1), tok())
+    top = {'t': 'seq', 'items': occ}
+    if tight: top['seps'] = [','] * (len(occ) - 1)
+    if rng.random() < 0.15: top = {'t': 'seq', 'items': [rep(rng.choice([None, 1, 2]), top), tok()]}
+    return top
+
 def gen_cases(rng, tier):
+    big = tier != 'quick'
     N = 500 if tier == 'quick' else 8000
     for _ in range(N):
         f = gen_fmt(rng, rng.choice([0, 1, 2, 2, 3]))
-        kw = {}
-        s = show(f, rng, kw)
-        toks = flatten(f)
-        vals = [rand_value(rng, nm, n) for nm, n in toks]
-        yield {'op': 'pack', 'fmt': s, 'kw': kw, 'toks': [list(t) for t in toks], 'vals': [v[0] for v in vals], 'bits': [v[1] for v in vals], 'back': [v[2] for v in vals],
-               'zero_bracket': has_zero_bracket(f), 'split': rng.randrange(0, len(toks) + 1), 'arity': rng.choice([0, 0, 0, -1, 1])}
+        c = mk_case(rng, f, new_ctx(rng.choice([0, 0, 0, 0.3, 0.6, 1.0]), rng.choice([0, 0, 0.5, 1.0])))
+        if c: yield c
     # one length-less ("filler") token inside a sequence: variable-length (exp-Golomb) and fixed tokens before it, only fixed-length ones after it;
     # unpack must size the filler by what is left after the tokens that FOLLOW it
     for _ in range(120 if tier == 'quick' else 2000):
@@ -151,12 +400,28 @@ def gen_cases(rng, tier):
         pre = [rng.choice([{'t': 'var', 'name': rng.choice(list(GC))}, fixed(), {'t': 'var', 'name': rng.choice(list(GC))}]) for _ in range(rng.randrange(0, 3))]
         post = [fixed() for _ in range(rng.randrange(0, 3))]
         f = {'t': 'seq', 'items': pre + [{'t': 'stretch', 'name': rng.choice(['bits', 'bin', 'hex', 'bytes'])}] + post}
-        kw = {}
-        s = show(f, rng, kw)
-        toks = flatten(f)
-        vals = [rand_value(rng, nm, n) for nm, n in toks]
-        yield {'op': 'pack', 'fmt': s, 'kw': kw, 'toks': [list(t) for t in toks], 'vals': [v[0] for v in vals], 'bits': [v[1] for v in vals], 'back': [v[2] for v in vals],
-               'zero_bracket': False, 'split': rng.randrange(0, len(toks) + 1), 'arity': 0}
+        c = mk_case(rng, f, new_ctx(rng.choice([0, 0, 0.4]), rng.choice([0, 0, 0.5])), arity=0)
+        if c: yield c
+    # the same sub-format text several times in one format: expansion is by position, never by text
+    for _ in range(250 if tier == 'quick' else 5000):
+        ctx = new_ctx(rng.choice([0, 0, 0, 0.4, 1.0]), rng.choice([0, 0, 0, 0.5]))
+        f = gen_repeat_fmt(rng, ctx, big)
+        if len(flatten(f)) > (400 if big else 160): continue
+        c = mk_case(rng, f, ctx, repeat=True)
+        if c: yield c
+    # values written as text, every kind of token, each way of handing a value over (in the format, as a positional str, through a keyword), alone and inside factors / brackets
+    for _ in range(250 if tier == 'quick' else 5000):
+        def valued():
+            while True:
+                t = gen_token(rng, False)
+                if t['t'] == 'struct' or t['t'] == 'var' or t['t'] == 'fixed' and t['name'] not in ('pad', 'bytes'): return t
+        r = rng.random()
+        if r < 0.4: f = valued()
+        elif r < 0.7: f = {'t': 'seq', 'items': [valued() for _ in range(rng.randrange(2, 4))]}
+        else: f = {'t': 'seq', 'items': [valued(), {'t': 'rep', 'n': rng.choice([1, 2, 3]), 'bracket': True, 'body': {'t': 'seq', 'items': [valued(), valued()]}}, valued()][:rng.choice([2, 3])]}
+        vp, tp = rng.choice([(1.0, 0), (1.0, 0), (0, 1.0), (0.5, 1.0), (0.7, 0.5)])
+        c = mk_case(rng, f, new_ctx(vp, tp), arity=0)
+        if c: yield c
     # the same list-of-formats pack twice, and its first item alone afterwards (each item is parsed and cached on its own)
     for _ in range(40 if tier == 'quick' else 600):
         items = []
@@ -188,7 +453,7 @@ def gen_cases(rng, tier):
         chars = '()*,:=0123456789 uintbhexabc<>'
         yield {'op': 'malformed', 'fmt': ''.join(rng.choice(chars) for _ in range(rng.randrange(1, 14)))}
 
-def kind(c): return c['op']
+def kind(c): return 'pack_repeat' if c.get('repeat') else c['op']
 
 def canon(v):
     import bitstring
@@ -225,8 +490,8 @@ def run_impl(c):
             emb = ', '.join(f'{t}={v}' for t, v in zip(fm, vs))
             r['string'] = list(attempt(lambda: Bits(emb).bin))
         return ('ok', r)
-    vals = [v for v in c['vals'] if v is not None]
     if c['op'] == 'packlist':
+        vals = [v for v in c['vals'] if v is not None]
         def g():
             pv = [pyval(v) for v in vals]
             a = pack(c['fmts'], *pv).bin
@@ -236,25 +501,51 @@ def run_impl(c):
             joined = pack(', '.join(c['fmts']), *pv).bin
             return [a, b, first, joined]
         return attempt(g, 20)
+    args = [pyval(v) for v in c['args']]
+    kw = {k: pyval(v) for k, v in c['kw'].items()}
+    lkw = c['lkw']
     def f():
         out = {}
-        p = pack(c['fmt'], *vals, **c['kw'])
+        p = pack(c['fmt'], *args, **kw)
         out['bin'] = p.bin; out['len'] = len(p); out['cls'] = type(p).__name__
-        out['unpack'] = [canon(x) for x in p.unpack(c['fmt'], **c['kw'])]
+        out['unpack'] = [canon(x) for x in p.unpack(c['plain'], **lkw)]
         out['pre'] = bitstring.utils.preprocess_tokens(c['fmt'])
         # arity
-        if c['arity'] == -1 and vals: out['few'] = list(attempt(lambda: pack(c['fmt'], *vals[:-1], **c['kw']).bin))
-        if c['arity'] == 1: out['many'] = list(attempt(lambda: pack(c['fmt'], *(vals + [0]), **c['kw']).bin))
-        # embedded values build the same bits
-        emb = []
-        ok = not c['kw']
-        for (nm, n), v in zip(c['toks'], c['vals']):
-            if nm == 'pad': emb.append(f'pad:{n}'); continue
-            if isinstance(v, bytes) or (nm == 'float') or v == '' or (nm in ('hex', 'bin', 'oct', 'bits', 'bytes') and n is None and v in ('', '0b')): ok = False; break
-            emb.append(f"{nm}{'' if n is None else ':' + str(n)}={v}")
-        if ok and emb: out['embedded'] = list(attempt(lambda: Bits(', '.join(emb)).bin))
+        if c['arity'] == -1 and args: out['few'] = list(attempt(lambda: pack(c['fmt'], *args[:-1], **kw).bin))
+        if c['arity'] == 1: out['many'] = list(attempt(lambda: pack(c['fmt'], *(args + [0]), **kw).bin))
         return out
-    return attempt(f, 20)
+    r = attempt(f, 20)
+    if r[0] != 'ok': return r
+    out = r[1]
+    exp = ''.join(c['bits'])
+    # reading the reference bits back with the format, on each class and through each reading method
+    def rd():
+        o = cls_of(c['ucls'])(bin=exp)
+        m = c['umeth'] if hasattr(o, 'pos') else 'unpack'
+        got = getattr(o, m)(c['plain'], **lkw)
+        return [m, [canon(x) for x in got], getattr(o, 'pos', None)]
+    out['read'] = list(attempt(rd, 10))
+    # the format as a token string: every value written out in the format itself, flat ...
+    if all(t is not None or nm == 'pad' for (nm, n), t in zip(c['toks'], c['etext'])) and c['toks']:
+        flat = ', '.join(f'pad:{n}' if nm == 'pad' else f"{nm}{'' if n is None else ':' + str(n)}={t}" for (nm, n), t in zip(c['toks'], c['etext']))
+        out['embedded'] = {cn: list(attempt(lambda: cls_of(cn)(flat).bin)) for cn in CLASSES}
+        out['embedded']['pack'] = list(attempt(lambda: pack(flat).bin))
+        out['embedded']['text'] = flat
+    # ... and with its brackets and factors
+    if not args and c['fmt'].strip():
+        o2 = {}
+        if not kw:
+            for cn in CLASSES: o2[cn] = list(attempt(lambda: cls_of(cn)(c['fmt']).bin))
+            o2['fromstring'] = list(attempt(lambda: Bits.fromstring(c['fmt']).bin))
+            o2['add'] = list(attempt(lambda: (bitstring.BitArray() + c['fmt']).bin))
+            o2['append'] = list(attempt(lambda: (lambda b: (b.append(c['fmt']), b.bin)[1])(bitstring.BitStream())))
+            o2['eq'] = list(attempt(lambda: exp if Bits(bin=exp) == c['fmt'] else 'unequal'))
+        out['string'] = o2
+    # 'f1, f2' = f1 followed by f2
+    if 'split' in c:
+        s = c['split']
+        out['split'] = [list(attempt(lambda: pack(s['f1'], *args[:s['a1']], **kw).bin)), list(attempt(lambda: pack(s['f2'], *args[s['a1']:], **kw).bin))]
+    return ('ok', out)
 
 def oracle(c, obs):
     if c['op'] == 'malformed':
@@ -277,28 +568,34 @@ def oracle(c, obs):
                     f"joined string {joined!r}; concatenation of token encodings is {exp!r} (first item: {exp0!r})")
         return None
     exp_bits = ''.join(c['bits'])
-    if obs[0] != 'ok': return f"pack({c['fmt']!r}, {c['vals']}, {c['kw']}) raised {obs}"
+    call = f"pack({c['fmt']!r}, *{c['args'][:12]}{'...' if len(c['args']) > 12 else ''} ({len(c['args'])} values), **{c['kw']})"
+    if obs[0] != 'ok': return f"{call} raised {obs}; the format flattens to {len(c['toks'])} tokens {c['toks'][:12]} with the values {c['vals'][:12]}"
     o = obs[1]
-    if o['bin'] != exp_bits or o['len'] != len(exp_bits): return f"pack({c['fmt']!r}, {c['vals']}) = {o['bin']!r} ({o['len']} bits), concatenation of token encodings is {exp_bits!r}"
+    if o['bin'] != exp_bits or o['len'] != len(exp_bits): return f"{call} = {o['bin']!r} ({o['len']} bits), concatenation of token encodings of {c['toks'][:12]} with the values {c['vals'][:12]} is {exp_bits!r} ({len(exp_bits)} bits)"
     if o['cls'] != 'BitStream': return f"pack returned a {o['cls']}"
     back = [b for (nm, n), b in zip(c['toks'], c['back']) if nm != 'pad']
-    nstretch = sum(1 for nm, n in c['toks'] if n is None and nm not in ('ue', 'se', 'uie', 'sie'))
-    if o['unpack'] != back: return f"unpack({c['fmt']!r}) of the packed bits gave {o['unpack']}, packed values were {back}"
+    if o['unpack'] != back: return f"unpack({c['plain']!r}) of the packed bits gave {len(o['unpack'])} values {o['unpack'][:12]}, the {len(back)} packed values were {back[:12]}"
     if 'few' in o and o['few'] != ['err', 'ValueError']: return f"pack({c['fmt']!r}) with one value missing: {o['few']}"
     if 'many' in o and o['many'] != ['err', 'ValueError']: return f"pack({c['fmt']!r}) with one value too many: {o['many']}"
-    if 'embedded' in o and o['embedded'] != ['ok', exp_bits]: return f"token string with embedded values for {c['fmt']!r} gave {o['embedded']}, expected {exp_bits!r}"
-    want = [f"{nm}{'' if n is None else n}" for nm, n in c['toks']]
-    got = [t.replace(':', '').replace(' ', '') for t in o['pre']]
-    norm = lambda L: [x.replace('uintne', 'uintne').lower() for x in L]
-    # keyword lengths stay symbolic in preprocess_tokens; compare only when no keywords are used
-    if not c['kw']:
-        got2 = []
-        for t in o['pre']:
-            got2.append(t.replace(' ', ''))
-        exp2 = []
-        for nm, n in c['toks']:
-            exp2.append(nm if n is None else None)
-        if len(o['pre']) != len(c['toks']): return f"preprocess_tokens({c['fmt']!r}) has {len(o['pre'])} tokens {o['pre']}, the grammar flattens it to {len(c['toks'])}"
+    if 'read' in o:
+        r = o['read']
+        if r[0] != 'ok': return f"{c['ucls']}(bin={exp_bits!r}).{c['umeth']}({c['plain']!r}, **{c['lkw']}) raised {r}; these are the bits of the tokens {c['toks'][:12]} with the values {back[:12]}"
+        m, got, pos = r[1]
+        if got != back: return f"{c['ucls']}(bin={exp_bits!r}).{m}({c['plain']!r}) gave {len(got)} values {got[:12]}, the bits encode the {len(back)} values {back[:12]}"
+        want_pos = None if pos is None else (len(exp_bits) if m == 'readlist' else 0)
+        if m != 'unpack' and pos != want_pos: return f"{c['ucls']}(bin=...).{m}({c['plain']!r}) left pos = {pos}, expected {want_pos}"
+    if 'embedded' in o:
+        for how, r in o['embedded'].items():
+            if how != 'text' and r != ['ok', exp_bits]:
+                return f"token string {o['embedded']['text']!r} (values of {c['fmt']!r} written as text) through {how} gave {r}, the values {c['vals'][:12]} encode to {exp_bits!r}"
+    if 'string' in o:
+        for how, r in o['string'].items():
+            if r != ['ok', exp_bits]: return f"token string {c['fmt']!r} through {how} gave {r}; its tokens {c['toks'][:12]} with the values {c['vals'][:12]} encode to {exp_bits!r}"
+    if 'split' in o:
+        s = c['split']; e1 = ''.join(c['bits'][:s['t1']]); e2 = ''.join(c['bits'][s['t1']:])
+        if o['split'] != [['ok', e1], ['ok', e2]]:
+            return f"format {c['fmt']!r} = {s['f1']!r} followed by {s['f2']!r}: packing the two parts gave {o['split']}, expected {e1!r} and {e2!r}"
+    if len(o['pre']) != len(c['toks']): return f"preprocess_tokens({c['fmt']!r}) has {len(o['pre'])} tokens {o['pre'][:12]}, the grammar flattens it to {len(c['toks'])}"
     return None
 
 def nontrivial(c, obs): return c['op'] == 'pack' and any(ch in c['fmt'] for ch in '*(<>=')
@@ -312,6 +609,7 @@ def cval(nm, v):
 def coq_check(c, obs):
     """token-level pack/unpack for formats whose tokens the model covers"""
     if c['op'] != 'pack' or obs[0] != 'ok' : return None
+    if c.get('repeat') and len(c['toks']) > 24: return None        # the model works on the flattened token list, which says nothing about how the text was expanded: the long ones are left to the oracle
     toks, vals = [], []
     for (nm, n), v, b in zip(c['toks'], c['vals'], c['bits']):
         if nm in ('uint', 'int', 'bool'): toks.append(f"(TFixed {CK[nm]} {n}, @None value)"); vals.append(cval(nm, v))
